@@ -69,7 +69,9 @@ CLAIMED = {
         "ascending or descending, ties in gathering order; it agrees with Python's comparison wherever that is "
         "defined; the depth sorter never puts an entry before a deeper one; count_follows_sort (C08Count.lean, the sorter "
         "composed with the C16 counter): of two files sharing a counter the one with the strictly smaller key is "
-        "processed first and receives the strictly smaller number, whatever else is interleaved. Tied to the real TemplateFileSorter / "
+        "processed first and receives the strictly smaller number, whatever else is interleaved; sorted_unique (C08Unique.lean): "
+        "any list that is ordered by the key and keeps each key class as in the input IS the model's result - so only "
+        "'sorted() is a stable sort' is trusted, not its algorithm. Tied to the real TemplateFileSorter / "
         "PathDepthSorter on hostile names and forced ties with keys computed independently, and to CLI runs in which "
         "%Count() reveals the processing order.",
         "Trusted: Lean kernel; sorted() is a stable sort; eval(repr(v)) == v for the key values (C14); hand-written "
@@ -318,8 +320,15 @@ CLAIMED = {
         "virtually present in the dry state, the directories are those of the initial tree'; hence "
         "(dry_run_predicts_name_mode) in name mode the dry run reports exactly what the real run does and ends alike for "
         "free, colliding, chained and cyclic plans, every order, every strategy and scripted stop/ignore/override "
-        "answers. Partial: custom-path answers, path and directory mode (under the property's side conditions) and "
-        "trees with symbolic links are not covered by the simulation theorem; they are established by correspondence: "
+        "answers; with custom paths typed at the prompt too when they have the name-mode shape "
+        "(dry_run_predicts_name_mode_custom). Refinement to the simplest specification (C05Report.lean): applyReport applies a "
+        "report, rename by rename, to the map path -> exists; the dry-run renamer simulates the specification renamer whose "
+        "whole state is that map (dry_refines_spec), whose state is at every moment the report so far applied to the initial "
+        "tree (spec_state_is_report); composed with name_mode_simulation: final_tree_is_report_applied - a path exists in the "
+        "tree the REAL run leaves behind iff it exists after applying the DRY run's report to the initial tree (every "
+        "name-mode run: any plan, order, strategy, override and custom answers). Partial: path and directory mode (under the "
+        "property's side conditions) and "
+        "trees with symbolic links are not covered by the simulation theorems; they are established by correspondence: "
         "each generated scenario (1-3 roots with equal relative names, explicit files, symlinks, all strategies and "
         "scripted answers) runs through the real CLI with and without --dry-run and through the model of both, and exit "
         "status and reported renames are compared. Known findings K2, K3, K5 are exercised and printed.",
